@@ -1,24 +1,12 @@
 import ColoVerif.Proofs.SpreadF
 import ColoVerif.Proofs.Spread
 /-
-C06 — the loop of the binary32 `spreadCellsF`: the running share never decreases (each addition of a
-non-negative half share to a binary32 value rounds to at least that value), so every coordinate written
-for a positive-demand cell is `coordAtF dem lo hi` for some `0 ≤ dem ≤ finalShareF`.
+C06 — the loop of the binary32 `spreadCellsF`: every positive-demand cell of the order list is written, and
+what is written is a clamped coordinate, hence in the closed bin.  No hypothesis on the demands or on the
+running share.
 -/
 namespace ColoVerif.SpreadF
-open ColoVerif.F64 ColoVerif.Spread
-
-theorem fl_idem (x : Rat) : fl (fl x) = fl x := f32'_idem x
-
-/-- a coordinate of the form the loop writes, for a share in `[0, M]` -/
-def Form (lo hi M v : Rat) : Prop := ∃ dem, 0 ≤ dem ∧ dem ≤ M ∧ v = coordAtF dem lo hi
-
-theorem Form.mono {lo hi M M' v : Rat} (h : Form lo hi M v) (hM : M ≤ M') : Form lo hi M' v := by
-  obtain ⟨d, a, b, c⟩ := h
-  exact ⟨d, a, le_trans b hM, c⟩
-
-/-- the state's share is a non-negative binary32 value -/
-def ShareOk (st : Rat × List Rat) : Prop := 0 ≤ st.1 ∧ fl st.1 = st.1
+open ColoVerif.Spread
 
 theorem spreadLoopF_cons (demands : List Rat) (inv lo hi : Rat) (e : Rat × Nat) (l : List (Rat × Nat))
     (st : Rat × List Rat) :
@@ -30,102 +18,67 @@ theorem spreadStepF_length (demands : List Rat) (inv lo hi : Rat) (st : Rat × L
     (spreadStepF demands inv lo hi st e).2.length = st.2.length := by
   unfold spreadStepF; split <;> simp
 
-/-- one iteration: the mid share and the new share are binary32 values above the old share -/
-theorem spreadStepF_ok (demands : List Rat) (inv lo hi : Rat) (hinv : 0 ≤ inv)
-    (st : Rat × List Rat) (e : Rat × Nat) (h : ShareOk st) :
-    ShareOk (spreadStepF demands inv lo hi st e) ∧ st.1 ≤ (spreadStepF demands inv lo hi st e).1 ∧
-    (¬ demands.getD e.2 0 ≤ 0 →
-      0 ≤ fl (st.1 + halfShareF demands inv e.2) ∧
-      fl (st.1 + halfShareF demands inv e.2) ≤ (spreadStepF demands inv lo hi st e).1) := by
-  obtain ⟨h0, hf⟩ := h
-  unfold spreadStepF
-  split
-  · rename_i hd
-    exact ⟨⟨h0, hf⟩, le_refl _, fun hn => absurd hd hn⟩
-  · rename_i hd
-    have hh := halfShareF_nonneg demands inv hinv e.2 (le_of_lt (not_le.mp hd))
-    have m1 : st.1 ≤ fl (st.1 + halfShareF demands inv e.2) := by
-      have := fl_mono (show st.1 ≤ st.1 + halfShareF demands inv e.2 by linarith)
-      rwa [hf] at this
-    have m2 : fl (st.1 + halfShareF demands inv e.2) ≤
-        fl (fl (st.1 + halfShareF demands inv e.2) + halfShareF demands inv e.2) := by
-      have := fl_mono (show fl (st.1 + halfShareF demands inv e.2) ≤
-        fl (st.1 + halfShareF demands inv e.2) + halfShareF demands inv e.2 by linarith)
-      rwa [fl_idem] at this
-    refine ⟨⟨by show 0 ≤ fl _; linarith, fl_idem _⟩, by show st.1 ≤ fl _; linarith, fun _ => ⟨by linarith, m2⟩⟩
+theorem spreadLoopF_length (demands : List Rat) (inv lo hi : Rat) :
+    ∀ (l : List (Rat × Nat)) (st : Rat × List Rat), (spreadLoopF demands inv lo hi l st).2.length = st.2.length
+  | [], _ => rfl
+  | e :: l, st => by
+    rw [spreadLoopF_cons, spreadLoopF_length demands inv lo hi l, spreadStepF_length]
 
-theorem spreadLoopF_ok (demands : List Rat) (inv lo hi : Rat) (hinv : 0 ≤ inv) :
-    ∀ (l : List (Rat × Nat)) (st : Rat × List Rat), ShareOk st →
-      ShareOk (spreadLoopF demands inv lo hi l st) ∧ st.1 ≤ (spreadLoopF demands inv lo hi l st).1 ∧
-      (spreadLoopF demands inv lo hi l st).2.length = st.2.length
-  | [], st, h => ⟨h, le_refl _, rfl⟩
-  | e :: l, st, h => by
-    rw [spreadLoopF_cons]
-    obtain ⟨a, b, _⟩ := spreadStepF_ok demands inv lo hi hinv st e h
-    obtain ⟨c, d, f⟩ := spreadLoopF_ok demands inv lo hi hinv l _ a
-    exact ⟨c, le_trans b d, by rw [f, spreadStepF_length]⟩
+theorem spreadCellsF_length (targets demands : List Rat) (lo hi : Rat) :
+    (spreadCellsF targets demands lo hi).length = targets.length := by
+  simp [spreadCellsF, spreadLoopF_length]
 
-/-- a coordinate of the loop's form keeps that form (with the larger final share as bound) -/
-theorem spreadLoopF_pres (demands : List Rat) (inv lo hi : Rat) (hinv : 0 ≤ inv) (j : Nat) :
-    ∀ (l : List (Rat × Nat)) (st : Rat × List Rat), ShareOk st → Form lo hi st.1 (st.2.getD j 0) →
-      Form lo hi (spreadLoopF demands inv lo hi l st).1 ((spreadLoopF demands inv lo hi l st).2.getD j 0)
-  | [], _, _, hF => hF
-  | e :: l, st, h, hF => by
+/-- a coordinate in the closed bin stays in the closed bin through the rest of the loop -/
+theorem spreadLoopF_pres (demands : List Rat) (inv lo hi : Rat) (hlh : lo ≤ hi) (j : Nat) :
+    ∀ (l : List (Rat × Nat)) (st : Rat × List Rat), (lo ≤ st.2.getD j 0 ∧ st.2.getD j 0 ≤ hi) →
+      lo ≤ (spreadLoopF demands inv lo hi l st).2.getD j 0 ∧ (spreadLoopF demands inv lo hi l st).2.getD j 0 ≤ hi
+  | [], _, hF => hF
+  | e :: l, st, hF => by
     rw [spreadLoopF_cons]
-    obtain ⟨a, b, m⟩ := spreadStepF_ok demands inv lo hi hinv st e h
-    refine spreadLoopF_pres demands inv lo hi hinv j l _ a ?_
+    refine spreadLoopF_pres demands inv lo hi hlh j l _ ?_
     by_cases hd : demands.getD e.2 0 ≤ 0
     · have hst : spreadStepF demands inv lo hi st e = st := by unfold spreadStepF; rw [if_pos hd]
       rw [hst]; exact hF
-    · obtain ⟨m0, m1⟩ := m hd
-      have hst : (spreadStepF demands inv lo hi st e).2 =
+    · have hst : (spreadStepF demands inv lo hi st e).2 =
           st.2.set e.2 (coordAtF (fl (st.1 + halfShareF demands inv e.2)) lo hi) := by
         unfold spreadStepF; rw [if_neg hd]
       rw [hst]
       by_cases hj : e.2 = j
       · subst hj
         by_cases hlen : e.2 < st.2.length
-        · rw [getD_set_self _ _ _ hlen]; exact ⟨_, m0, m1, rfl⟩
-        · rw [List.set_eq_of_length_le (not_lt.mp hlen)]; exact hF.mono b
-      · rw [getD_set_ne _ _ _ _ hj]; exact hF.mono b
+        · rw [getD_set_self _ _ _ hlen]; exact coordAtF_bounds _ lo hi hlh
+        · rw [List.set_eq_of_length_le (not_lt.mp hlen)]; exact hF
+      · rw [getD_set_ne _ _ _ _ hj]; exact hF
 
-/-- every positive-demand cell of the order list (index in range) ends with a coordinate of the loop's form -/
-theorem spreadLoopF_written (demands : List Rat) (inv lo hi : Rat) (hinv : 0 ≤ inv) :
-    ∀ (l : List (Rat × Nat)) (st : Rat × List Rat), ShareOk st →
+/-- every positive-demand cell of the order list (index in range) ends in the closed bin -/
+theorem spreadLoopF_written (demands : List Rat) (inv lo hi : Rat) (hlh : lo ≤ hi) :
+    ∀ (l : List (Rat × Nat)) (st : Rat × List Rat),
       ∀ e ∈ l, 0 < demands.getD e.2 0 → e.2 < st.2.length →
-        Form lo hi (spreadLoopF demands inv lo hi l st).1 ((spreadLoopF demands inv lo hi l st).2.getD e.2 0)
-  | [], _, _, e, he, _, _ => by simp at he
-  | e0 :: l, st, h, e, he, hpos, hlen => by
+        lo ≤ (spreadLoopF demands inv lo hi l st).2.getD e.2 0 ∧
+        (spreadLoopF demands inv lo hi l st).2.getD e.2 0 ≤ hi
+  | [], _, e, he, _, _ => by simp at he
+  | e0 :: l, st, e, he, hpos, hlen => by
     rw [spreadLoopF_cons]
-    obtain ⟨a, b, m⟩ := spreadStepF_ok demands inv lo hi hinv st e0 h
     rcases List.mem_cons.mp he with rfl | hmem
     · have hd : ¬ demands.getD e.2 0 ≤ 0 := not_le.mpr hpos
-      obtain ⟨m0, m1⟩ := m hd
-      refine spreadLoopF_pres demands inv lo hi hinv e.2 l _ a ?_
+      refine spreadLoopF_pres demands inv lo hi hlh e.2 l _ ?_
       have hst : (spreadStepF demands inv lo hi st e).2 =
           st.2.set e.2 (coordAtF (fl (st.1 + halfShareF demands inv e.2)) lo hi) := by
         unfold spreadStepF; rw [if_neg hd]
       rw [hst, getD_set_self _ _ _ hlen]
-      exact ⟨_, m0, m1, rfl⟩
-    · exact spreadLoopF_written demands inv lo hi hinv l _ a e hmem hpos (by rw [spreadStepF_length]; exact hlen)
+      exact coordAtF_bounds _ lo hi hlh
+    · exact spreadLoopF_written demands inv lo hi hlh l _ e hmem hpos (by rw [spreadStepF_length]; exact hlen)
 
-/-- `spreadCellsF`: the coordinate of a positive-demand cell is `coordAtF dem lo hi` for a share
-`0 ≤ dem ≤ finalShareF` -/
-theorem spreadCellsF_form (targets demands : List Rat) (lo hi : Rat) (hnn : ∀ d ∈ demands, 0 ≤ d)
+/-- `spreadCellsF`: the coordinate of a positive-demand cell is in the closed bin -/
+theorem spreadCellsF_inside (targets demands : List Rat) (lo hi : Rat) (hlh : lo ≤ hi)
     (i : Nat) (hi' : i < targets.length) (hpos : 0 < demands.getD i 0) :
-    Form lo hi (finalShareF targets demands lo hi) ((spreadCellsF targets demands lo hi).getD i 0) := by
+    lo ≤ (spreadCellsF targets demands lo hi).getD i 0 ∧ (spreadCellsF targets demands lo hi).getD i 0 ≤ hi := by
   have hmem : (targets.getD i 0, i) ∈ sortedOrder targets := by
     have hperm : (sortedOrder targets).Perm (indexed targets 0) := List.mergeSort_perm _ _
     have := indexed_mem targets 0 i hi'
     rw [Nat.zero_add] at this
     exact hperm.mem_iff.mpr this
-  have := spreadLoopF_written demands (invF demands) lo hi (invF_nonneg demands hnn) (sortedOrder targets)
-    (0, List.replicate targets.length 0) ⟨le_refl _, fl_zero⟩ _ hmem hpos (by simpa using hi')
-  exact this
-
-theorem finalShareF_nonneg (targets demands : List Rat) (lo hi : Rat) (hnn : ∀ d ∈ demands, 0 ≤ d) :
-    0 ≤ finalShareF targets demands lo hi :=
-  (spreadLoopF_ok demands (invF demands) lo hi (invF_nonneg demands hnn) (sortedOrder targets)
-    (0, List.replicate targets.length 0) ⟨le_refl _, fl_zero⟩).1.1
+  exact spreadLoopF_written demands (invF demands) lo hi hlh (sortedOrder targets)
+    (0, List.replicate targets.length 0) _ hmem hpos (by simpa using hi')
 
 end ColoVerif.SpreadF
